@@ -28,7 +28,7 @@ func importStream(w *World, v int64) ([]*iavl.ExportNode, error) {
 
 // runImport imports the stream as version v into st with a tree configured by cfg; it returns the first error.
 func runImport(st *vstore.Store, cfg Cfg, v int64, stream []*iavl.ExportNode) (err error) {
-	t := iavl.NewMutableTree(st, cfg.Cache, !cfg.Fast, iavl.NewNopLogger(), cfg.options()...)
+	t := cfg.newTree(st, cfg.Cache, !cfg.Fast)
 	defer func() { _ = t.Close() }()
 	imp, err := t.Import(v)
 	if err != nil {
